@@ -148,6 +148,11 @@ func init() {
 				s := sx.Pick(rng, []string{"C:", "d:"}) + "\\" + org + "\\" + name
 				c17one(s, s, "windows")
 			}
+			// a two-segment source whose organisation looks like a host is still org/name
+			if i%11 == 0 {
+				o := sx.Pick(rng, []string{"github.com", "bitbucket.org", "gitlab.com"})
+				c17one(o+"/"+name+ref, "github.com/"+o+"/"+name+"-buildkite-plugin"+ref, "org")
+			}
 			// already canonical sources stay as they are
 			if i%7 == 0 {
 				s := "github.com/" + org + "/" + name + "-buildkite-plugin" + ref
